@@ -43,11 +43,7 @@ def jobs():
                       remove_bodies=RB_CLIENT + ["coap_cache_derive_key_w_ignore", "coap_delete_cache_key"], unwind=24, flags=FS, timeout=900, est_gb=4,
                       group="scenario-observe", witness=(k <= 3),   # k symbolic: SAT out of memory at 12 GB (sizes become symbolic)
                       desc="observe registration (coap_add_observer): allocation #%d fails" % k, bounds={"scenario": "observe", "failing allocation": k}))
-    for k in range(0, 5):
-        js.append(Job("scenario-large@fail%d" % k, "C18/c18.c", "c18_large", UNITS, extra_src=EXTRA, defines=[x for x in d if x != "UNREACH_LG_CRCV"] + ["C18_LARGE", "C18_LARGE_SECOND", "ENV_LOG_QUIET", "ENV_FAIL_AT=%d" % k],
-                      remove_bodies=[r for r in RB_CLIENT if r != "coap_block_new_lg_crcv"], unwind=50, flags=FS, timeout=900, est_gb=4,
-                      group="scenario-large", witness=(k <= 2), tier="thorough",
-                      desc="coap_add_data_large_request_lkd (Block1 transfer state for a 100-byte body, followed by a second upload): allocation #%d fails" % k, bounds={"scenario": "large", "failing allocation": k}))
+    # concrete-k variants of the large scenario (with a second upload afterwards) are not registered: the symbolic-k job below decides every k
     js.append(Job("scenario-large@failsym", "C18/c18.c", "c18_large", UNITS, extra_src=EXTRA, defines=[x for x in d if x != "UNREACH_LG_CRCV"] + ["C18_LARGE", "ENV_LOG_QUIET", "ENV_FAIL_SYM=4"],
                   remove_bodies=[r for r in RB_CLIENT if r != "coap_block_new_lg_crcv"], unwind=50, flags=FS, timeout=900, est_gb=6,
                   group="scenario-large", desc="coap_add_data_large_request_lkd (Block1 transfer state for a 100-byte body): the k-th allocation fails, k symbolic 0..4",
